@@ -8,7 +8,8 @@
 //
 // Disagreement keys: muxapi:<clause>:<history>, clause in
 //
-//	c09-error   a zero-length / unregistered-protocol / wrong-direction segment did not end the connection with an error
+//	c09-error   a zero-length / unregistered-protocol segment did not end the connection with an error
+//	            (the wrong-direction clause is C17's: reported as an observation of class stop)
 //	c09-route   a segment reached a receiver the specification does not name
 //	gate, stop, reg, deliver   life-cycle clauses outside the listed properties
 package main
@@ -251,7 +252,7 @@ func replay(b *behaviour) (clause, desc string) {
 				}
 			}
 			switch {
-			case opened && (want.Err == "zero-length" || want.Err == "unknown protocol" || want.Err == "mode") && (got.Err == "none" || !got.Done):
+			case opened && (want.Err == "zero-length" || want.Err == "unknown protocol") && (got.Err == "none" || !got.Done):
 				// C09: such a segment closes the connection with an error - it did not (whatever the
 				// error's wording is, a connection that ended with one satisfies the clause)
 				cl = "c09-error"
